@@ -22,11 +22,12 @@ LIB_WORDS = {"AND", "OR", "NOT", "XOR", "IMPLIES", "REQUIRES", "EXCLUDES", "EQUI
 
 
 def _ctc(draw, nms, feats):
-    return _cap_xor(draw(S.expr_of_depth(nms, logic.LOGICAL, draw(st.integers(0, 3)))), [2])
+    return _cap_xor(draw(S.expr_of_depth(nms, logic.LOGICAL, draw(st.integers(0, 5)))), [2])
 
 
-PROFILE = S.Profile(S.clafer_names(), single=("mandatory", "optional"), group=("alternative", "or", "mutex", "card"),
-                    layout="one_group", abstract=False, attrs=S._clafer_attrs, ctc_max=4, ctc_expr=_ctc)
+PROFILE = S.Profile(S.clafer_names(), single=("mandatory", "optional"), group=("alternative", "or", "mutex", "card", "card", "star"),
+                    layout="one_group", abstract=False, attrs=S._clafer_attrs, ctc_max=4, ctc_expr=_ctc, variants=S.VARIANTS_TEXT,
+                    sanitize=S.clafer_sanitize)
 
 
 def _unify_attr_types(model):
